@@ -4,6 +4,8 @@ import O4.Generated.Consts.Probdist
 import O4.Generated.Facts.Probdist
 import Mathlib.Algebra.Order.Field.Rat
 import Mathlib.Tactic.NormNum
+import O4.Generated.Facts.Drbg
+import O4.Generated.Facts.Csrand
 /-!
 # C12 — seeded distributions and generator: deterministic, in range, exact
 
@@ -207,6 +209,23 @@ theorem sample_reset_under_mutex :
     Facts.Probdist.WeightedDist_Reset_locked = true ∧
     Facts.Probdist.WeightedDist_Reset_prelock = [] ∧
     Facts.Probdist.WeightedDist_Sample_fields ⊆ Facts.Probdist.WeightedDist_Reset_fields := by
+  decide
+
+
+/-- **structural fact, regenerated from the Go source on every run (go/ast)**: every package-level
+    variable (file-scope `var`) of the packages this property's mechanisms live in
+    (common/probdist, common/drbg, common/csrand) is one of the names below — error values, fixed byte strings,
+    flags and function hooks that the code only reads after initialisation.  The models treat all
+    other state as owned by one connection / one object; a NEW package-level variable (a cache, a
+    pool, a scratch buffer, a pre-keyed hash shared "to save allocations") is how such state comes
+    to be shared between connections and goroutines, which compiles, passes the tests and typically
+    needs true parallelism or a multi-connection history to misbehave.  Adding one breaks this
+    theorem; the concurrent / multi-connection families of the harness then search for the failing
+    schedule. -/
+theorem no_new_package_level_state :
+    O4.Facts.Probdist.pkg_vars ⊆ [] ∧
+    O4.Facts.Drbg.pkg_vars ⊆ [] ∧
+    O4.Facts.Csrand.pkg_vars ⊆ ["Rand", "Reader", "csRandSourceInstance"] := by
   decide
 
 end C12
